@@ -122,7 +122,7 @@ Theorem C09_print_config_pending_refuted :
     snd (step pinned Ds (run pinned Ds (init n) ops) o) <> snd (step pinned Ds (init n) o) /\
     guard_class pinned (run pinned Ds (init n) ops) o = 1%N /\
     snd (step pinned Ds (run pinned Ds (init n) ops) o) = OPrint None no_flags false None /\
-    snd (step pinned Ds (init n) o) = OOk false None.
+    snd (step pinned Ds (init n) o) = OOk false None None.
 Proof.
   exists [d_plain; d_plain], 2%nat, [call 0 (PArgs [TFlag s_print_config; TOpt s_k s_bad])], (call 0 (PArgs [])).
   vm_compute. repeat split; discriminate.
@@ -136,7 +136,7 @@ Theorem C09_print_config_broken_refuted :
   exists Ds n ops o,
     guard_class pinned (run pinned Ds (init n) ops) o = 1%N /\
     snd (step pinned Ds (run pinned Ds (init n) ops) o) = OErr EBroken /\
-    snd (step pinned Ds (init n) o) = OOk false None.
+    snd (step pinned Ds (init n) o) = OOk false None None.
 Proof.
   exists [d_sub], 1%nat,
          [call 0 (PArgs [TPos s_fit; TFlag s_print_config; TOpt s_lr s_bad]); call 0 (PArgs [])],
@@ -151,7 +151,7 @@ Theorem C09_lazy_print_shtab_key_refuted :
   exists Ds n ops o,
     snd (step pinned Ds (run pinned Ds (init n) ops) o) <> snd (step pinned Ds (init n) o) /\
     guard_class pinned (run pinned Ds (init n) ops) o = 2%N /\
-    snd (step pinned Ds (run pinned Ds (init n) ops) o) = OOk true None /\
+    snd (step pinned Ds (run pinned Ds (init n) ops) o) = OOk true None None /\
     snd (step pinned Ds (init n) o) = OErr (EUnknown s_print_shtab).
 Proof.
   exists [d_plain; d_plain], 2%nat, [call 0 (PArgs [TOpt s_k s_2])],
@@ -182,8 +182,8 @@ Theorem C09_dataclass_default_carried_refuted :
   exists Ds n ops o,
     snd (step pinned Ds (run pinned Ds (init n) ops) o) <> snd (step pinned Ds (init n) o) /\
     guard_class pinned (run pinned Ds (init n) ops) o = 4%N /\
-    snd (step pinned Ds (run pinned Ds (init n) ops) o) = OOk false (Some (s_3, s_2)) /\
-    snd (step pinned Ds (init n) o) = OOk false (Some (s_0, s_2)).
+    snd (step pinned Ds (run pinned Ds (init n) ops) o) = OOk false (Some (s_3, s_2)) None /\
+    snd (step pinned Ds (init n) o) = OOk false (Some (s_0, s_2)) None.
 Proof.
   exists [d_dc; d_plain], 2%nat, [call 0 (PArgs [TOpt s_da s_3])], (call 0 (PArgs [TOpt s_db s_2])).
   vm_compute. repeat split; discriminate.
@@ -195,8 +195,8 @@ Print Assumptions C09_dataclass_default_carried_refuted.
 Theorem C09_dataclass_default_after_failure_refuted :
   exists Ds n ops o,
     guard_class pinned (run pinned Ds (init n) ops) o = 4%N /\
-    snd (step pinned Ds (run pinned Ds (init n) ops) o) = OOk false (Some (s_3, s_2)) /\
-    snd (step pinned Ds (init n) o) = OOk false (Some (s_3, s_0)).
+    snd (step pinned Ds (run pinned Ds (init n) ops) o) = OOk false (Some (s_3, s_2)) None /\
+    snd (step pinned Ds (init n) o) = OOk false (Some (s_3, s_0)) None.
 Proof.
   exists [d_dc], 1%nat, [call 0 (PArgs [TOpt s_da s_2; TOpt s_db s_2; TOpt s_k s_bad])], (call 0 (PObject [(s_d, [51;44]%N)])).
   vm_compute. repeat split.
@@ -228,11 +228,11 @@ Example C09_guard_satisfiable :
   in_guard pinned s o = true /\
   s <> init 2 /\ ps_shtab (get_ps s 0) = true /\ ps_pending (get_ps s 1) = PFull None no_flags /\
   st_dk s = Some (false, true) /\
-  snd (step pinned [d_sub; d_plain] s o) = OOk false None /\
+  snd (step pinned [d_sub; d_plain] s o) = OOk false None (Some (None, true)) /\
   map (fun p => snd (step pinned [d_sub; d_plain] (run pinned [d_sub; d_plain] (init 2) (firstn p h_example))
                        (nth p h_example o)))
       [0; 1; 2; 3; 4]%nat
-  = [OPrint None no_flags false None; OErr EPre; OHelp []; OErr EPre; OOk false None].
+  = [OPrint None no_flags false None; OErr EPre; OHelp []; OErr EPre; OOk false None None].
 Proof. vm_compute. repeat split. discriminate. Qed.
 Print Assumptions C09_guard_satisfiable.
 
@@ -240,12 +240,51 @@ Print Assumptions C09_guard_satisfiable.
 Example C09_repaired_example :
   fx_pc repaired = true /\ fx_sh repaired = true /\ fx_hs repaired = true /\ fx_dd repaired = true /\
   snd (step repaired [d_dc] (run repaired [d_dc] (init 1) [call 0 (PArgs [TOpt s_da s_3])])
-         (call 0 (PArgs [TOpt s_db s_2]))) = OOk false (Some (s_0, s_2)) /\
+         (call 0 (PArgs [TOpt s_db s_2]))) = OOk false (Some (s_0, s_2)) None /\
   snd (step repaired [d_plain] (run repaired [d_plain] (init 1) [call 0 (PArgs [TFlag s_print_config; TOpt s_k s_bad])])
-         (call 0 (PArgs []))) = OOk false None /\
+         (call 0 (PArgs []))) = OOk false None None /\
   snd (step repaired [d_plain] (run repaired [d_plain] (init 1) [call 0 (PArgs [TOpt s_k s_2])])
          (call 0 (PObject [(s_k, s_3); (s_print_shtab, s_bash)]))) = OErr (EUnknown s_print_shtab) /\
   snd (step repaired [d_cb; d_model] (run repaired [d_cb; d_model] (init 2) [call 0 (PArgs [TOpt s_cb_help s_SubA])])
          (call 1 (PArgs [TOpt s_model_help s_SubA]))) = OHelpCls false.
 Proof. vm_compute. repeat split. Qed.
 Print Assumptions C09_repaired_example.
+
+(* ---------- round 6: the keywords of parse_args (env=, defaults=) and the parse_kwargs context variable ---------- *)
+
+(* parse_args(argv, env=e, defaults=d) stores (e, d) in the context variable parse_kwargs, which is never reset; the
+   sub-command action READS that variable to call the sub-command parser (_actions.py:680).  The answer of the model
+   shows the keywords read (third component of OOk): whatever state is carried in — in particular whatever keywords an
+   earlier parse_args of this or another parser left in the variable — a sub-command is parsed with the keywords of
+   the call that names it, or with (None, true): the keywords of the parse_args of a throw-away class parser that
+   the SAME command line went through before the sub-command token (a field --d.<x> of the dataclass option; an
+   intra-call effect, identical on a fresh parser).  Never with what an earlier call stored.  (The guarded and the
+   repaired theorems above quantify over PArgsKw as well, and the answers they compare now include these keywords.) *)
+Theorem C09_subcommand_keywords_are_this_calls :
+  forall fx Ds s p env dflt argv a b x,
+    snd (step fx Ds s {| op_p := p; op_k := PArgsKw env dflt argv |}) = OOk a b (Some x) ->
+    x = (env, dflt) \/ x = (None, true).
+Proof. exact subcommand_keywords_are_this_calls. Qed.
+Print Assumptions C09_subcommand_keywords_are_this_calls.
+
+Theorem C09_subcommand_keywords_default :
+  forall fx Ds s p argv a b x,
+    snd (step fx Ds s {| op_p := p; op_k := PArgs argv |}) = OOk a b (Some x) -> x = (None, true).
+Proof. exact subcommand_keywords_default. Qed.
+Print Assumptions C09_subcommand_keywords_default.
+
+(* the premise is met: after parse_args(defaults=False) on parser 1 and a plain parse_args on parser 0 the variable
+   holds (None, true); a call with env=True, defaults=False that names a sub-command is answered with ITS keywords,
+   the same answer as on fresh parsers; and a class help without a value answers with the help of the base type *)
+Example C09_keywords_example :
+  let Ds := [d_sub; d_model] in
+  let s := run repaired Ds (init 2) [call 1 (PArgsKw None false [TOpt s_k s_2]); call 0 (PArgs [TPos s_fit])] in
+  let o := call 0 (PArgsKw (Some true) false [TPos s_fit; TOpt s_lr s_3]) in
+  st_pk s = Some (None, true) /\
+  snd (step repaired Ds s o) = OOk false None (Some (Some true, false)) /\
+  snd (step repaired Ds (init 2) o) = OOk false None (Some (Some true, false)) /\
+  st_pk (fst (step repaired Ds s o)) = Some (Some true, false) /\
+  snd (step repaired Ds s (call 1 (PArgs [TFlag s_model_help]))) = OHelpCls false /\
+  snd (step repaired Ds s (call 1 (PArgs [TFlag s_model_help; TOpt s_k s_2]))) = OHelpCls false.
+Proof. vm_compute. repeat split. Qed.
+Print Assumptions C09_keywords_example.
